@@ -8,7 +8,7 @@
 //!   replay search <mode> <budget> <seed>     first disagreement as one JSON line, exit 1; none: exit 0
 //!   replay case   <mode> <case>              re-run one case (used by `./check replay <file>`)
 //!
-//! modes: ops quant count model retain fp formula parse index
+//! modes: ops quant count model retain fp formula parse lex index
 use std::collections::BTreeMap;
 use std::panic::{catch_unwind, AssertUnwindSafe};
 use std::rc::Rc;
@@ -1386,6 +1386,161 @@ fn search_parse(budget: usize, seed: u64) -> Option<Fail> {
     None
 }
 
+// ------------------------------------------------------------------ mode: lex (bounded stand-in for the regex tokenizer)
+
+/// independent reading of README's lexical rules: symbols by longest match, numbers, `{reference}`, words (keywords and
+/// aliases, everything else a variable numbered by first appearance), `"comments"`; any other character separates.
+fn ref_lex(src: &str) -> Result<Vec<String>, String> {
+    let cs: Vec<char> = src.chars().collect();
+    let is_w = |c: char| c.is_alphanumeric() || c == '_' || c == '\'';
+    let syms = ["<=>", "=>", "<=", ">=", "!", "&", "-", "|", "^", "#", "*", "+", "=", ">", "<", "[", "]", ",", "(", ")"];
+    let mut out = vec![];
+    let mut ids: Vec<String> = vec![];
+    let mut i = 0;
+    while i < cs.len() {
+        let rest: String = cs[i..].iter().collect();
+        if let Some(sy) = syms.iter().find(|sy| rest.starts_with(**sy)) {
+            out.push(match *sy {
+                "&" | "*" => "And", "|" | "+" => "Or", "^" => "Xor", "-" | "!" => "Not", "=>" => "Implies", "<=" => "ImpliesInv",
+                "<=>" => "Iff", "#" => "Hash", "=" => "Eq", "<" => "Lt", ">" => "Gt", ">=" => "Geq", "(" => "OpenParen",
+                ")" => "CloseParen", "[" => "OpenSquare", "]" => "CloseSquare", "," => "Comma", _ => unreachable!(),
+            }.to_string());
+            i += sy.chars().count();
+            continue;
+        }
+        if cs[i].is_numeric() && cs[i].is_ascii_digit() {
+            let mut j = i;
+            while j < cs.len() && cs[j].is_ascii_digit() {
+                j += 1;
+            }
+            let t: String = cs[i..j].iter().collect();
+            match t.parse::<usize>() {
+                Ok(n) => out.push(format!("Countable({n})")),
+                Err(_) => return Err("number out of range".into()),
+            }
+            i = j;
+            continue;
+        }
+        if cs[i] == '{' {
+            let mut j = i + 1;
+            while j < cs.len() && is_w(cs[j]) {
+                j += 1;
+            }
+            if j > i + 1 && j < cs.len() && cs[j] == '}' {
+                out.push(format!("Reference({})", cs[i + 1..j].iter().collect::<String>()));
+                i = j + 1;
+                continue;
+            }
+        }
+        if is_w(cs[i]) {
+            let mut j = i;
+            while j < cs.len() && is_w(cs[j]) {
+                j += 1;
+            }
+            let w: String = cs[i..j].iter().collect();
+            out.push(match w.as_str() {
+                "false" => "False".into(), "true" => "True".into(), "not" => "Not".into(), "and" => "And".into(), "or" => "Or".into(),
+                "xor" => "Xor".into(), "nor" => "Nor".into(), "nand" => "Nand".into(), "implies" | "in" => "Implies".into(),
+                "iff" | "eq" => "Iff".into(), "exists" | "any" => "Exists".into(), "forall" | "all" => "Forall".into(),
+                "if" => "If".into(), "then" => "Then".into(), "else" => "Else".into(), "gfp" | "nu" => "GFP".into(), "lfp" | "mu" => "LFP".into(),
+                _ => {
+                    let id = ids.iter().position(|x| *x == w).unwrap_or_else(|| {
+                        ids.push(w.clone());
+                        ids.len() - 1
+                    });
+                    format!("Var({w},{id})")
+                }
+            });
+            i = j;
+            continue;
+        }
+        if cs[i] == '"' {
+            if let Some(k) = cs[i + 1..].iter().position(|c| *c == '"') {
+                i = i + 1 + k + 1;
+                continue;
+            }
+        }
+        i += 1;
+    }
+    out.push("Eof".into());
+    Ok(out)
+}
+
+fn tok_s(t: &T) -> String {
+    match t {
+        T::Var(v) => format!("Var({},{})", v.name, v.id),
+        T::Countable(n) => format!("Countable({n})"),
+        T::Reference(n) => format!("Reference({n})"),
+        other => format!("{other:?}"),
+    }
+}
+
+/// case: a text.  Non-ASCII digits are outside the reference (skipped).
+fn case_lex(case: &str) -> Option<Fail> {
+    if case.chars().any(|c| c.is_numeric() && !c.is_ascii_digit()) {
+        // the only requirement there: no panic
+        tick();
+        return match quiet(|| SymbolicBDD::tokenize(&mut case.as_bytes(), None).map(|_| ())) {
+            Err(p) => Some(Fail { case: case.into(), expected: "tokens or Err, never a panic".into(), actual: p }),
+            Ok(_) => None,
+        };
+    }
+    let want = ref_lex(case);
+    tick();
+    let got = quiet(|| SymbolicBDD::tokenize(&mut case.as_bytes(), None));
+    match (got, want) {
+        (Err(p), w) => Some(Fail { case: case.into(), expected: format!("{w:?} (never a panic)"), actual: p }),
+        (Ok(Err(_)), Err(_)) => None,
+        (Ok(Err(e)), Ok(w)) => Some(Fail { case: case.into(), expected: format!("{w:?}"), actual: format!("Err({e})") }),
+        (Ok(Ok(g)), w) => {
+            let g: Vec<String> = g.iter().map(tok_s).collect();
+            match w {
+                Ok(w) if w == g => None,
+                w => Some(Fail { case: case.into(), expected: format!("{w:?}"), actual: format!("{g:?}") }),
+            }
+        }
+    }
+}
+
+const LEXALPHA: [&str; 40] = ["a", "b1", "1", "23", " ", "\n", "\t", "(", ")", "[", "]", ",", "#", "-", "!", "&", "|", "^", "*", "+", "=", "<", ">", "=>", "<=", "<=>", ">=",
+    "\"", "{", "}", "{r}", "'", "_", "and", "exists", "mu", "@", ";", "é", "99999999999999999999999"];
+
+fn search_lex(budget: usize, seed: u64) -> Option<Fail> {
+    for c in ["", "\"only a comment\"", "@ \"note\"", "\"a\"\"b\"", "[a, b] = 1and c", "2x & a", "a<=>b", "a<=b", "a=>b", "a>=1", "[a]>=1", "{x} & {y'}", "a \"c\" b", "a\"unterminated", "٣", "[a] = ٣",
+              "a1 1a a'b _", "<==>", "<=<=>", "=>=", "--a", "a&&b", "true false TRUE", "nu mu gfp lfp any all in eq"] {
+        if let Some(f) = case_lex(c) {
+            return Some(f);
+        }
+    }
+    // all strings of up to 3 lexemes (no separator between them), then random longer ones
+    for a in LEXALPHA {
+        if let Some(f) = case_lex(a) {
+            return Some(f);
+        }
+        for b in LEXALPHA {
+            if let Some(f) = case_lex(&format!("{a}{b}")) {
+                return Some(f);
+            }
+            if budget >= 3000 {
+                for c in LEXALPHA {
+                    if let Some(f) = case_lex(&format!("{a}{b}{c}")) {
+                        return Some(f);
+                    }
+                }
+            }
+        }
+    }
+    let mut rng = Rng(seed | 1);
+    for _ in 0..budget {
+        let n = 4 + rng.below(8);
+        let s: String = (0..n).map(|_| LEXALPHA[rng.below(LEXALPHA.len())]).collect();
+        if let Some(f) = case_lex(&s) {
+            return Some(f);
+        }
+    }
+    None
+}
+
 // ------------------------------------------------------------------ mode: index (orderings)
 
 /// case: ordering names (comma separated, ids = position, "_" = gap) | formula
@@ -1493,6 +1648,7 @@ fn main() {
             "fp" => case_fp(c),
             "formula" => case_formula(c),
             "parse" => case_parse(c),
+            "lex" => case_lex(c),
             "index" => case_index(c),
             _ => std::process::exit(2),
         }
@@ -1508,6 +1664,7 @@ fn main() {
             "fp" => search_fp(budget, seed),
             "formula" => search_formula(budget, seed),
             "parse" => search_parse(budget, seed),
+            "lex" => search_lex(budget, seed),
             "index" => search_index(budget, seed),
             _ => std::process::exit(2),
         }
